@@ -102,7 +102,7 @@ class Unit:
 class Lemma:
     """a statement over spec functions only; build(c) -> list of (name, hyps, goal)"""
 
-    def __init__(self, props, name, build, doc='', timeout_ms=20000):
+    def __init__(self, props, name, build, doc='', timeout_ms=8000):
         self.props = [props] if isinstance(props, str) else list(props)
         self.name, self.build, self.doc, self.timeout_ms = name, build, doc, timeout_ms
         LEMMAS.append(self)
@@ -246,23 +246,36 @@ def _arr_equal(c, a0, a1):
 
 
 def sum_extensionality(c):
-    """prove S1 == S2 for spec sums whose bodies are pointwise equal (generic induction, done per pair)"""
+    """prove S1(a,b,ps) == S2(a,b,pi(ps)) for spec sums whose bodies are pointwise equal under some matching of
+    their parameters (generic induction, justified once; the pointwise equality is checked by z3 here)"""
+    import itertools
     sums = list(c.sums.values())
     facts = []
     for i in range(len(sums)):
         for j in range(i + 1, len(sums)):
             s1, s2 = sums[i], sums[j]
-            if s1.arity != s2.arity:
+            if s1.arity != s2.arity or s1.arity > 6:
+                continue
+            if sorted(str(x) for x in s1.sorts) != sorted(str(x) for x in s2.sorts):
                 continue
             k = z3.Int('k?e')
-            ps = [z3.Int('p?e%d' % n) for n in range(s1.arity)]
-            slv = z3.Solver()
-            slv.set('timeout', 2000)
-            slv.add(s1.body(k, *ps) != s2.body(k, *ps))
-            if slv.check() == z3.unsat:
-                a, b = z3.Ints('a?e b?e')
-                facts.append(z3.ForAll([a, b] + ps, s1.f(a, b, *ps) == s2.f(a, b, *ps),
-                                       patterns=[s1.f(a, b, *ps), s2.f(a, b, *ps)]))
+            ps = [z3.Const('p?e%d' % n, srt) for n, srt in enumerate(s1.sorts)]
+            tried = 0
+            for perm in itertools.permutations(range(s1.arity)):
+                if any(str(s2.sorts[m]) != str(s1.sorts[perm[m]]) for m in range(s1.arity)):
+                    continue
+                tried += 1
+                if tried > 150:
+                    break
+                qs = [ps[perm[m]] for m in range(s1.arity)]
+                slv = z3.Solver()
+                slv.set('timeout', 1000)
+                slv.add(s1.body(k, *ps) != s2.body(k, *qs))
+                if slv.check() == z3.unsat:
+                    a, b = z3.Ints('a?e b?e')
+                    facts.append(z3.ForAll([a, b] + ps, s1.f(a, b, *ps) == s2.f(a, b, *qs),
+                                           patterns=[s1.f(a, b, *ps), s2.f(a, b, *qs)]))
+                    break
     c.sum_eqs = facts
     return len(facts)
 
@@ -563,7 +576,15 @@ def prove_lemma(lem):
     except Exception as e:
         return [OblResult('lemma.%s' % lem.name, 'lemma', 0, 'error', 0.0, 'z3', traceback.format_exc(limit=5))], {}
     jobs = []
+    from .core import Hinted
     for name, hyps, goal in items:
+        hyps = list(hyps)
+        if isinstance(goal, Hinted):
+            hyps = hyps + [d for d in goal.defs if d is not True]
+            for i, l in enumerate(goal.lemmas):
+                jobs.append(('lemma.%s.%s.hint%d' % (lem.name, name, i), solve.to_smt2(c, hyps, l)))
+                hyps = hyps + [l]
+            goal = goal.goal
         jobs.append(('lemma.%s.%s' % (lem.name, name), solve.to_smt2(c, hyps, goal)))
     verdicts = solve.discharge(jobs, timeout_ms=lem.timeout_ms)
     for n, _ in jobs:
